@@ -275,13 +275,17 @@ fn mask(g: &mut G, default: Option<&str>, label: &'static str) -> Option<LefMask
     g.of(&v, label).map(|s| LefMask { mask: d(s) })
 }
 
-/// `n` points; `100 + n` = the same `n` points followed by the first one again (an explicitly closed point list)
+/// `n` points; `100 + n` = the same `n` points followed by the first one again (an explicitly closed point list);
+/// `200 + n` = the same `n` points with the second one stated twice in a row
 fn poly_points(n: usize) -> Vec<LefPoint> {
     let all = [("-0.2", "-0.3"), ("-0.25", "0.2"), ("0.3", "0.35"), ("0.4", "-0.45"), ("0.1", "-0.6"), ("-0.1", "-0.7")];
-    let (k, closed) = if n >= 100 { (n - 100, true) } else { (n, false) };
+    let (k, closed, twice) = if n >= 200 { (n - 200, false, true) } else if n >= 100 { (n - 100, true, false) } else { (n, false, false) };
     let mut v: Vec<LefPoint> = all[..k].iter().map(|(x, y)| pt(x, y)).collect();
     if closed {
         v.push(v[0].clone());
+    }
+    if twice {
+        v.insert(1, v[1].clone());
     }
     v
 }
@@ -291,7 +295,7 @@ fn via_fixed(g: &mut G) -> LefLibrary {
     let m1 = mask(g, Some("1"), "viaf.mask_rect");
     let p1 = g.point("-0.5", "-0.6", "viaf.x1", "viaf.y1");
     let p2 = g.point("0.7", "0.8", "viaf.x2", "viaf.y2");
-    let npoly = g.of(&[4usize, 3, 6, 104, 103], "viaf.npoly");
+    let npoly = g.of(&[4usize, 3, 6, 104, 103, 204], "viaf.npoly");
     let m2 = mask(g, None, "viaf.mask_poly");
     let mut layers = vec![
         LefViaLayerGeometries { layer_name: g.name("met1", "viaf.lname"), shapes: vec![LefViaShape::Rect(m1, p1, p2)] },
@@ -630,8 +634,8 @@ fn geoms(g: &mut G) -> LefLibrary {
         _ => (pat.numx, pat.numy) = (d("1"), d("4")),
     }
     let pat2 = LefStepPattern { numx: d("4"), numy: d("5"), spacex: d("1.5"), spacey: d("-2.5") };
-    let npoly = g.of(&[4usize, 3, 6, 104, 103], "geoms.npoly");
-    let npath = g.of(&[2usize, 3, 5, 103, 104], "geoms.npath");
+    let npoly = g.of(&[4usize, 3, 6, 104, 103, 204], "geoms.npoly");
+    let npath = g.of(&[2usize, 3, 5, 103, 104, 203], "geoms.npath");
     let m1 = mask(g, Some("1"), "geoms.mask1");
     let mut gs = vec![
         LefGeometry::Shape(r0),
